@@ -76,12 +76,32 @@ func c15routeSrc(name string, v int) string {
 type c15defs struct {
 	routes   map[string]*ast.Route // key name/version
 	baseline map[string]string     // expected output of a fresh OptNone compilation
+	// inPlace: a new version of a route is written into the node that held the previous one (a
+	// reloader that keeps its route objects and updates their bodies), instead of a new node.
+	// Only used in single-caller runs, where no call can hold the node while it changes.
+	inPlace bool
+	node    map[string]*ast.Route
 }
 
 func (d *c15defs) get(s *sim.Sim, name string, v int) *ast.Route {
 	key := fmt.Sprintf("%s/%d", name, v)
 	if r, ok := d.routes[key]; ok {
 		return r
+	}
+	if d.inPlace {
+		d.inPlace = false
+		fresh := d.get(s, name, v) // builds the version and its baseline from separate nodes
+		d.inPlace = true
+		if d.node == nil {
+			d.node = map[string]*ast.Route{}
+		}
+		if n, ok := d.node[name]; ok {
+			*n = *fresh
+			d.routes[key] = n
+			return n
+		}
+		d.node[name] = fresh
+		return fresh
 	}
 	if strings.HasPrefix(name, "p-") {
 		route := c15ptrRoute(name, v)
@@ -382,6 +402,16 @@ func c15Run(s *sim.Sim, p *sim.Params) {
 	ntasks := 1 + s.Choose(sim.SWork, 5)
 	if (hot || churn) && ntasks < 2 {
 		ntasks = 2 + s.Choose(sim.SWork, 3)
+	}
+	if ntasks == 1 && s.Choose(sim.SWork, 2) == 0 {
+		// the initial versions were built before this point; from here on a redefinition rewrites
+		// the route's node in place
+		defs.inPlace = true
+		defs.node = map[string]*ast.Route{}
+		for _, n := range names {
+			defs.node[n] = defs.routes[fmt.Sprintf("%s/%d", n, 1)]
+		}
+		s.Probe("in-place-redefinition-run")
 	}
 	var hs []*sim.Handle
 	for ti := 0; ti < ntasks; ti++ {
